@@ -63,6 +63,7 @@ def run(tier, seed):
            "rule": "behaviours = every path of MC_RootChain (shipped root x per-request answer among all key configurations x signer sets x claimed versions n-1/n/n+1 x non-documents, then top-level metadata signed by online keys of any configuration); non-trivial = some offered root is not a valid successor or some later role is signed by keys of another epoch",
            "trace_events": nev, "explained_by_model": st["explained"], "not_explained": st["unexplained"],
            "exhaustive": True}
+    cov.update(clientlib.fixture_traces(v, PID, FIELDS, "c02-fx"))
     return v.finish("model_checking", cov, [
         "TLC; signature validity abstracted as signer sets; key 13 is an RSA key and 12/14 ECDSA keys in the harness so that hops change algorithm",
         "the chain is explored up to MaxRootV published versions (3 quick / 4 thorough in the check configuration)"])
